@@ -27,6 +27,10 @@ def norm(callee):
     return f
 
 
+# self-test of the concolic fallback: pretend the matching library functions have no model
+_DISABLED = re.compile(os.environ['VERIF_DISABLE_MODEL']) if os.environ.get('VERIF_DISABLE_MODEL') else None
+
+
 class Models:
     def __init__(self):
         self.used = set()
@@ -35,6 +39,8 @@ class Models:
         ent = _CACHE.get(callee)
         if ent is None:
             f = norm(callee)
+            if _DISABLED is not None and _DISABLED.search(f):
+                raise Unsupported('no model for ' + callee[:300] + ' (disabled by VERIF_DISABLE_MODEL)')
             for rx, fn in _MODELS:
                 m = rx.search(f)
                 if m:
